@@ -173,6 +173,16 @@ func (t *Input) reflectSetKey(rv reflect.Value, key string, v interface{}) (err 
 func (t *Input) reflectSet(rv reflect.Value, v interface{}) (err error) {
 	if rv.CanSet() {
 		vv := reflect.ValueOf(v)
+		if !vv.IsValid() {
+			// A null value. That is the zero value for kinds that can be nil
+			// and not something that can be stored in any other kind.
+			switch rv.Kind() {
+			case reflect.Ptr, reflect.Slice, reflect.Map, reflect.Interface:
+				rv.Set(reflect.Zero(rv.Type()))
+				return
+			}
+			return fmt.Errorf("can not coerce a null into a %s", rv.Kind())
+		}
 		vt := vv.Type()
 		if vt.AssignableTo(rv.Type()) {
 			rv.Set(vv)
